@@ -225,12 +225,24 @@ func (w *Workspace) InitModule() error {
 	// reuse verif's requirement blocks verbatim
 	s := string(vm)
 	i := strings.Index(s, "require")
-	gomod := "module vw\n\ngo 1.18\n\nrequire verif v0.0.0\n\nreplace verif => " + VerifDir + "\n\n" + s[i:]
+	gomod := "module vw\n\ngo 1.18\n\nrequire verif v0.0.0\n\nrequire " + DigitModule + " v0.0.0\n\nreplace verif => " + VerifDir + "\n\nreplace " + DigitModule + " => ./_ext9\n\n" + s[i:]
 	if err := ioutil.WriteFile(filepath.Join(md, "go.mod"), []byte(gomod), 0o644); err != nil {
 		return err
 	}
 	sum, err := ioutil.ReadFile(filepath.Join(VerifDir, "go.sum"))
 	if err != nil {
+		return err
+	}
+	// the second module (struct packages at an import path that begins with a digit)
+	ext := filepath.Join(md, "_ext9")
+	if err := os.MkdirAll(ext, 0o755); err != nil {
+		return err
+	}
+	extmod := "module " + DigitModule + "\n\ngo 1.18\n\nrequire verif v0.0.0\n\nreplace verif => " + VerifDir + "\n\n" + s[i:]
+	if err := ioutil.WriteFile(filepath.Join(ext, "go.mod"), []byte(extmod), 0o644); err != nil {
+		return err
+	}
+	if err := ioutil.WriteFile(filepath.Join(ext, "go.sum"), sum, 0o644); err != nil {
 		return err
 	}
 	return ioutil.WriteFile(filepath.Join(md, "go.sum"), sum, 0o644)
